@@ -102,6 +102,17 @@ def bank_program(rng):
             st.append("stall_%s = ((i10bytes)[%d..%d] == 0);" % (lo, sb, sb + 2))
             st.append("bubble_%s = ((i10bytes)[%d..%d] >= 2);" % (lo, sb + 1, sb + 3))
         banks.append((li, lo, regs))
+    # banks without any register (legal): they must not disturb their neighbours, wherever they are declared
+    for _ in range(rng.choice([0, 0, 1, 1, 2])):
+        li = rng.choice([c for c in gen.LOWER if c not in "ps" and c not in ins])
+        lo = rng.choice([c for c in gen.UPPER if c != "P" and c not in outs and c not in [b[1] for b in banks]])
+        ins.append(li)
+        st.append("register %s%s { }" % (li, lo))
+        if rng.random() < 0.5:
+            st.append("stall_%s = (i10bytes)[%d..%d];" % (lo, 60 + bit % 8, 61 + bit % 8))
+        if rng.random() < 0.5:
+            st.append("bubble_%s = (i10bytes)[%d..%d];" % (lo, 50 + bit % 8, 51 + bit % 8))
+        banks.append((li, lo, []))
     rng.shuffle(st)
     return "\n".join(st) + "\n", banks
 
